@@ -175,7 +175,7 @@ theorem tape_confined (verbose : Bool) (archive : Str) (into : Option Str) (tape
     not the path the extractor was told to keep (the archive) -/
 theorem readEntries_writes (sd : Disk.Side) (bat : List Nat) (dir : Str) (entries : List Disk.Entry) : ∀ (st : Disk.RdState),
     ∀ w ∈ (Disk.readEntries sd bat (some dir) entries st).1.writes,
-      w ∈ st.writes ∨ ∃ f, w.1 = pathJoin dir f ∧ f.contains 47 = false ∧ f.contains 0 = false ∧ f ≠ [46] ∧ f ≠ [46, 46] ∧ Tape.collides st.keep w.1 = false := by
+      w ∈ st.writes ∨ ∃ f, w.1 = pathJoin dir f ∧ f.contains 47 = false ∧ f.contains 0 = false ∧ f ≠ [46] ∧ f ≠ [46, 46] ∧ f ≠ [] ∧ Tape.collides st.keep w.1 = false := by
   induction entries with
   | nil => intro st w hw; simp [Disk.readEntries] at hw; exact Or.inl hw
   | cons e rest ih =>
@@ -194,11 +194,12 @@ theorem readEntries_writes (sd : Disk.Side) (bat : List Nat) (dir : Str) (entrie
             · simp only [List.mem_append, List.mem_singleton] at h
               rcases h with h | h
               · exact Or.inl h
-              · refine Or.inr ⟨Disk.fileNameOf e, by rw [h], ?_, ?_, ?_, ?_, ?_⟩
+              · refine Or.inr ⟨Disk.fileNameOf e, by rw [h], ?_, ?_, ?_, ?_, ?_, ?_⟩
                 · simp only [Bool.or_eq_true, not_or] at h47; simpa using h47.1
                 · simp only [Bool.or_eq_true, not_or] at h47; simpa using h47.2
                 · intro e1; apply hdot; simp [e1]
                 · intro e1; apply hdot; simp [e1]
+                · unfold Disk.fileNameOf; simp
                 · rw [h]; simpa using hcol
             · exact Or.inr h
 
@@ -227,7 +228,7 @@ theorem readEntries_keep (sd : Disk.Side) (bat : List Nat) (sp : Option Str) (en
     without '/' and without NUL that is neither `.` nor `..` — an entry inside `sideN` -/
 def DiskWritable (target : Str) (path : Str) : Prop :=
   ∃ k f, path = pathJoin (pathJoin target (Tape.str "side" ++ digits k)) f ∧ f.contains 47 = false ∧ f.contains 0 = false
-    ∧ f ≠ [46] ∧ f ≠ [46, 46]
+    ∧ f ≠ [46] ∧ f ≠ [46, 46] ∧ f ≠ []
 
 theorem readSides_writes (target : Str) : ∀ (sides : List Disk.Side) (i : Nat) (st : Disk.RdState),
     (∀ w ∈ st.writes, DiskWritable target w.1 ∧ Tape.collides st.keep w.1 = false) →
@@ -252,9 +253,9 @@ theorem readSides_writes (target : Str) : ∀ (sides : List Disk.Side) (i : Nat)
             { l := Disk.onBeginOfSide st.l i, mkdirs := st.mkdirs ++ [pathJoin target (Tape.str "side" ++ digits i)], writes := st.writes, keep := st.keep }).1.writes,
             DiskWritable target w'.1 ∧ Tape.collides st.keep w'.1 = false := by
           intro w' hw'
-          rcases readEntries_writes sd bat _ entries _ w' hw' with h1 | ⟨f, hf, h47, h0, hd1, hd2, hc⟩
+          rcases readEntries_writes sd bat _ entries _ w' hw' with h1 | ⟨f, hf, h47, h0, hd1, hd2, hne, hc⟩
           · exact h w' h1
-          · exact ⟨⟨i, f, hf, h47, h0, hd1, hd2⟩, hc⟩
+          · exact ⟨⟨i, f, hf, h47, h0, hd1, hd2, hne⟩, hc⟩
         have hkeep := readEntries_keep sd bat (some (pathJoin target (Tape.str "side" ++ digits i))) entries
             { l := Disk.onBeginOfSide st.l i, mkdirs := st.mkdirs ++ [pathJoin target (Tape.str "side" ++ digits i)], writes := st.writes, keep := st.keep }
         generalize hr : Disk.readEntries sd bat (some (pathJoin target (Tape.str "side" ++ digits i))) entries
